@@ -279,6 +279,16 @@ func runC10(r *Run) {
 			for e := range listCuts(f) {
 				memberCut[e] = true
 			}
+			// a helper of the decision (checked by the same rule in its own body) counts as a membership predicate
+			for _, c := range callsIn(f, false) {
+				if sc := c.Common.StaticCallee(); sc != nil && seen[sc] && sc != f && c.Value() != nil {
+					for _, pb := range ifsOnValue(f, c.Value()) {
+						if ps, ok := pb.truthSlot(true); ok {
+							memberCut[edge{pb.If.Block(), ps}] = true
+						}
+					}
+				}
+			}
 			for _, br := range branchesIn(f) {
 				if loadOfField(br.Info.Root, "Config.TrustProxy") {
 					if s, ok := br.truthSlot(false); ok {
